@@ -52,7 +52,8 @@ REQUIRED = ('round_trips', 'replays_compared', 'partial_histories',
             'corruptions_raised', 'trimmed_short_stack_histories',
             'commentary_histories', 'commentary_sequences_compared',
             'commentary_with_whitespace_runs',
-            'histories_with_facedown_unknown_shows')
+            'histories_with_facedown_unknown_shows',
+            'ten_plus_player_histories')
 
 PHH_GAMES = tuple(g for g in gen.ALL_GAMES if g != 'NoLimitRoyalHoldem')
 HOLDEM_FAMILY = ('FixedLimitTexasHoldem', 'NoLimitTexasHoldem',
@@ -221,6 +222,8 @@ def check_case(res, rng, cfg, pol):
         res.counters['user_field_histories'] += 1
     if cfg['chip_type'] == 'Decimal':
         res.counters['decimal_histories'] += 1
+    if cfg['n'] >= 10:
+        res.counters['ten_plus_player_histories'] += 1
     if any(' # ' in a for a in hh.actions):
         res.counters['commentary_histories'] += 1
     if any(a.split()[1:2] == ['sm'] and '??' in a.split('#')[0]
@@ -379,6 +382,13 @@ def gen_cfg(rng):
     if cfg['mode'] == 'CASH_GAME' and \
             'RUNOUT_COUNT_SELECTION' not in cfg['autos']:
         cfg['autos'].append('RUNOUT_COUNT_SELECTION')
+    if cfg['game'] in ('NoLimitTexasHoldem', 'FixedLimitTexasHoldem',
+                       'NoLimitShortDeckHoldem') and rng.random() < 0.08:
+        # big tables (two-digit player labels: p10, p11, ...)
+        n = rng.randint(10, 12)
+        unit, bb = cfg['unit'], cfg['bb']
+        cfg['n'] = n
+        cfg['stacks'] = [rng.randint(3, 60) * bb * unit for _ in range(n)]
     return cfg
 
 
